@@ -9,12 +9,13 @@ package mutable
 // When a series is in both the active table and the table being flushed, the merge takes the active
 // (newer) record as `newRec`, in both read directions: the newer acknowledged value wins.
 //@ func (*MemTables).Values
-//@   requires m != nil && m.snapshotTbl != m.activeTbl
+//@   requires m != nil
 //@   ghost snapR Ptr = nil
 //@   ghost actR Ptr = nil
-//@   call getValues
-//@     set snapR = (arg0 == m.snapshotTbl ? ret0 : snapR)
-//@     set actR = (arg0 == m.activeTbl ? ret0 : actR)
+//@   call getValues on m.snapshotTbl
+//@     set snapR = ret0
+//@   call getValues on m.activeTbl
+//@     set actR = ret0
 //@   call (*Record).MergeRecord
 //@     requires arg0 == actR && arg1 == snapR
 //@   call (*Record).MergeRecordDescend
